@@ -49,6 +49,13 @@ HIER = {
         ('B', 'Mix, A', '', ['y: int = 2'], [('y', False)]),
         ('C', 'A, Mix', '', ['y: int = 2', 'x: int = 9'], [('y', False), ('x', False)]),
     ],
+    'kwmid': [
+        ('A', 'PaneBase', "in_format=('tuple', 'struct'), out_format='tuple'",
+         ['x: int = 1', "tag: str = field(default='t', kw_only=True)", 'y: int = 0'], [('x', False), ('tag', True), ('y', False)]),
+        ('B', 'A', '', ['pass'], []),                                     # a leaf that declares no field
+        ('C', 'A', "out_format='struct'", ['pass'], []),                  # ... and only changes an option
+        ('D', 'B', '', ['z: int = 3'], [('z', False)]),
+    ],
     'diamond': [
         ('A', 'PaneBase', '', ['x: int = 1'], [('x', False)]),
         ('B', 'A', '', ['y: int = 2'], [('y', False)]),
@@ -145,6 +152,27 @@ def body_field_order(sel: int, a: int, b: int) -> int:
             return 1
     else:
         x = cls(a) if pos else cls()
+    if h == 'kwmid':
+        # the tuple layout binds positions to the positional fields in this order, and writes positional then keyword-only fields
+        try:
+            y = cls.from_data((a, b))
+        except Exception as e:
+            if crosshair_exc(e):
+                raise
+            return 1
+        if getattr(y, pos[0]) != a or getattr(y, pos[1]) != b or y.tag != 't':
+            return 1
+        d = y.into_data()
+        if name != 'C':
+            if not isinstance(d, tuple) or len(d) != len(pos) + len(kw):
+                return 1
+            n = 0
+            for fn in pos + kw:
+                if not eqv(d[n], getattr(y, fn)):
+                    return 1
+                n += 1
+        elif list(d.keys()) != pos + kw:
+            return 1
     # repr follows the order
     r = repr(cls())
     last = -1
@@ -211,11 +239,19 @@ class Half(P[U, int]):
 class Deep(H[V]):
     pass
 
+class KWG(PaneBase, Generic[T], in_format=('tuple', 'struct'), out_format='tuple'):
+    x: T
+    tag: str = field(default='t', kw_only=True)
+    y: int = 0
+
+class KWGsub(KWG[U], out_format='struct'):
+    pass
+
 class Deeper(Deep[T]):
     m: Optional[T] = None
 '''
 exec(_GEN_SRC, NS)
-G, H, HI, P, Q, FL, FL2, HH, Box, Crate, Swapped, Half, Deeper, Deep2, Deep2Fwd = (NS[k] for k in ('G', 'H', 'HI', 'P', 'Q', 'FL', 'FL2', 'HH', 'Box', 'Crate', 'Swapped', 'Half', 'Deeper', 'Deep2', 'Deep2Fwd'))
+G, H, HI, P, Q, FL, FL2, HH, Box, Crate, Swapped, Half, Deeper, Deep2, Deep2Fwd, KWG, KWGsub = (NS[k] for k in ('G', 'H', 'HI', 'P', 'Q', 'FL', 'FL2', 'HH', 'Box', 'Crate', 'Swapped', 'Half', 'Deeper', 'Deep2', 'Deep2Fwd', 'KWG', 'KWGsub'))
 
 # instantiation -> {field: kind}; kinds: 'int', 'str', 'float', 'list_int', 'list_str', 'opt_int', 'opt_str', 'dict_str'
 INST_SPEC = {
@@ -235,6 +271,8 @@ INST_SPEC = {
     'Swapped_int_str': (lambda: Swapped[int, str], {'a': 'int', 'b': 'str'}),
     'Half_str': (lambda: Half[str], {'a': 'str', 'b': 'int'}),
     'Deeper_str': (lambda: Deeper[str], {'x': 'str', 'ys': 'list_str', 'z': 'opt_str', 'm': 'opt_str'}),
+    'KWG_int': (lambda: KWG[int], {'x': 'int', 'y': 'int', 'tag': 'str'}),
+    'KWGsub_str': (lambda: KWGsub[str], {'x': 'str', 'y': 'int', 'tag': 'str'}),
 }
 INST = {}
 for (_k, (_mk, _kinds)) in INST_SPEC.items():
@@ -319,8 +357,8 @@ def body_generic_enforced(sel: int, fsel: int, k: int, i: int, s: str, wrap: int
     for f in fields:
         if f.name in kinds and not type_eq(f.type, EXPECT_TYPE[kinds[f.name]]):
             return 2
-    if len([f for f in fields]) != len(kinds):
-        return 1
+    if [f.name for f in fields] != list(kinds):
+        return 1            # (the tables above list the fields in the expected order: positional, then keyword-only)
     # put a symbolic value into the fsel-th field (directly, or inside its list / dict), valid values elsewhere
     n = 0
     target = None
@@ -521,3 +559,33 @@ for _k in range(6):
             body_nested_generic(_k, 1, 'a', _w)
         except Exception:
             pass
+
+
+@obligation(pre="0 <= which <= 2", witnesses=(0,), timeout=120)
+def body_generic_tuple_order(which: int, a: int, b: int) -> int:
+    """a subscripted generic (a class that declares no field of its own) keeps the field order of its origin in the tuple layout: positions bind to the positional fields, keyword-only fields are written last"""
+    try:
+        if which == 0:
+            x = KWG[int].from_data((a, b))
+            if x.x != a or x.y != b or x.tag != 't' or not eqv(x.into_data(), (a, b, 't')):
+                return 1
+        elif which == 1:
+            x = KWGsub[int].from_data((a, b))
+            if x.x != a or x.y != b or x.tag != 't' or not eqv(x.into_data(), {'x': a, 'y': b, 'tag': 't'}) or list(x.into_data().keys()) != ['x', 'y', 'tag']:
+                return 1
+        else:
+            x = FL[int].from_data((a, [b]))
+            if x.x != a or not eqv(x.ys, [b]) or not eqv(x.into_data(), (a, [b])):
+                return 1
+    except Exception as e:
+        if crosshair_exc(e):
+            raise
+        return 10
+    return 0
+
+
+for _w in range(3):
+    try:
+        body_generic_tuple_order(_w, 1, 2)
+    except Exception:
+        pass
